@@ -164,7 +164,8 @@ CHECKS = {
         level_text="Generated file sets with line counts around the internal queue capacities are read through the real client binaries while the harness consumes their stdout at a generated pace (tiny reads, small pipe, uniform slowness, stalls of up to 5.6 s placed at a fraction of the stream or just before its end); commands come as one glob, one per file or the same file twice, with limits that force queueing, and the verif hooks add delays at the shutdown handshake, between commands and around the limiter. The tagged lines delivered per file must be exactly the selected ones, once and in order, exit status 0, and the session must end by itself.",
         level_note="Termination is a bounded-response check (60 s + twice the generated pauses; a miss is re-examined with a fast consumer before it is reported). Schedules are sampled, not enumerated. The known finding 'session-ends-before-all-commands-arrived' is suppressed only for multi-command sessions whose hook trace shows the shutdown beginning before the last command had arrived.",
         tests=[
-            dict(name="TestC02E2E", quick=dict(checks=14, shards=12, timeout=900), thorough=dict(checks=300, shards=12, timeout=3400)),
+            dict(name="TestC02E2E", quick=dict(checks=12, shards=10, timeout=900), thorough=dict(checks=300, shards=10, timeout=3400)),
+            dict(name="TestC02Handler", quick=dict(checks=60, shards=6, timeout=900), thorough=dict(checks=1500, shards=6, timeout=3400)),
         ]),
     "C04": dict(
         pkg="c04", level="exploration",
